@@ -224,6 +224,9 @@ func genEpoch(rng *zz.RNG, dir string, o genOpts) *gEpoch {
 			}
 		}
 		nTx := rng.Intn(o.MaxTx + 1)
+		if b == 0 && nTx == 0 && o.MaxTx > 0 {
+			nTx = 1 // the properties speak of epochs with at least one transaction
+		}
 		var entryLinks []datamodel.Link
 		var txLinks []datamodel.Link
 		for t := 0; t < nTx; t++ {
@@ -387,6 +390,7 @@ type loadedEpoch struct {
 	Conf    *Config
 	Ep      *Epoch
 	GsfaDir string
+	Cache   *hugecache.Cache // nil = the process-wide cache (as in the server, shared by all epochs)
 }
 
 // buildIndexes runs the real `index all` (createAllIndexes) and optionally `index gsfa` on the generated CAR.
@@ -432,12 +436,26 @@ func (le *loadedEpoch) load(dir string) error {
 		return fmt.Errorf("LoadConfig: %w", err)
 	}
 	le.Conf = conf
-	ep, err := NewEpochFromConfig(conf, newCliCtx(), verifCache(), nil)
+	cache := le.Cache
+	if cache == nil {
+		cache = verifCache()
+	}
+	ep, err := NewEpochFromConfig(conf, newCliCtx(), cache, nil)
 	if err != nil {
 		return fmt.Errorf("NewEpochFromConfig: %w", err)
 	}
 	le.Ep = ep
 	return nil
+}
+
+func newVerifCache() *hugecache.Cache {
+	conf := bigcache.DefaultConfig(5 * time.Minute)
+	conf.HardMaxCacheSize = 64
+	c, err := hugecache.NewWithConfig(context.Background(), conf)
+	if err != nil {
+		panic(err)
+	}
+	return c
 }
 
 var theVerifCache *hugecache.Cache
